@@ -165,7 +165,7 @@ def run(ctx):
     import random
     drng = random.Random('c19-directed')
     for k, cell in enumerate([(1, 1, 1, 4), (2, 2, 9, 4), (3, 31, 2, 4), (2, 1, 1, 3)] * 2):
-        c = gen.synth_case(drng, cell, costs=False, addons=False, overpressure=False)
+        c = gen.synth_case(drng, cell, costs=False, addons=False, overpressure=False, sdac=False)
         # fixed total capital cost + redrilling: 'Drilling and completion costs (for redrilling)' block
         gen.cset(c, 'Total Capital Cost', 60 + k)
         gen.cset(c, 'Maximum Drawdown', 0.03)
